@@ -1,5 +1,5 @@
 // C04 harness: init / convert of every ring family of /repo's current headers, one case per line on stdin.
-//   init  <ring> <src> <p> <k> <x>   ->  <raw> <cI> <ci64> <cu64> <cd> <ci32> <cu32>     (element, then every convert form)
+//   init  <ring> <src> <p> <k> <x>   ->  <raw> <cI> <ci64> <cu64> <cd> <ci32> <cu32> <cf> <ci16> <cu16>   (element, then every convert form)
 //   rt    <ring> <src> <p> <k> <x>   ->  <raw> <raw of init(convert<Integer>(e))> <.. int64> <.. uint64> <.. double>
 //   const <ring> -    <p> <k> 0      ->  <zero> <one> <mOne> <cI(zero)> <cI(one)> <cI(mOne)> <raw of init(-1)>
 //   card  <ring> -    0   0   0      ->  <minCardinality> <maxCardinality>
@@ -124,7 +124,8 @@ do_init(const R& F, const std::string& op, const mpz_t x) {
     std::ostringstream o;
     if (op == "init") {
         o << show(e) << " " << conv<R, Integer>(F, e) << " " << conv<R, int64_t>(F, e) << " " << conv<R, uint64_t>(F, e)
-          << " " << conv<R, double>(F, e) << " " << conv<R, int32_t>(F, e) << " " << conv<R, uint32_t>(F, e);
+          << " " << conv<R, double>(F, e) << " " << conv<R, int32_t>(F, e) << " " << conv<R, uint32_t>(F, e)
+          << " " << conv<R, float>(F, e) << " " << conv<R, int16_t>(F, e) << " " << conv<R, uint16_t>(F, e);
     } else {   // rt: init(convert(e)) for each convert target
         o << show(e);
         if (!finite_elt(e)) return o.str() + " nonfinite nonfinite nonfinite nonfinite";
